@@ -89,6 +89,7 @@ type mergePart struct {
 type LoopInfo struct {
 	NonFresh map[string]bool // keys modified in the loop on arbitrary objects that may pre-date the loop
 	OldRefs  map[string][]ssa.Value // keys modified in the loop only on these loop-invariant objects (and fresh ones)
+	OldRefTerms map[string][]string // same, as terms evaluated in the pre-loop state (maps loaded from a field the loop does not write)
 	ViewOnly map[string]bool // keys also written at interior-pointer views (negative addresses) by the loop
 	Header  *ssa.BasicBlock
 	Blocks  map[*ssa.BasicBlock]bool
@@ -97,6 +98,10 @@ type LoopInfo struct {
 }
 
 type FnVC struct {
+	keyTypes map[string]types.Type // Go type of the values stored under a field / cell heap key
+	labelStates map[string]*State // label name -> state before the labelled call
+	labelGuards map[string]string // label name -> reachability of the labelled call
+	labelSites  map[string][2]interface{}
 	W       *World
 	Fn      *ssa.Function
 	C       *FuncContract
@@ -243,6 +248,18 @@ func (v *FnVC) heapGet(st *State, key string) string {
 	if !v.heapInit[name] {
 		v.heapInit[name] = true
 		v.declConst(name, so)
+		// closed entry heap: references stored in the heap the function starts with denote objects that exist at
+		// entry (they are older than anything the function allocates)
+		if v.entry != nil && st.epoch == v.entry.epoch && v.entry.alloc != "" {
+			if kt, ok := v.keyTypes[key]; ok && kt != nil {
+				switch kt.Underlying().(type) {
+				case *types.Slice:
+					v.asserts = append(v.asserts, fmt.Sprintf("(forall ((a Int)) (! (< (sarr (select %s a)) %s) :pattern ((select %s a))))", name, v.entry.alloc, name))
+				case *types.Pointer, *types.Map, *types.Chan:
+					v.asserts = append(v.asserts, fmt.Sprintf("(forall ((a Int)) (! (< (select %s a) %s) :pattern ((select %s a))))", name, v.entry.alloc, name))
+				}
+			}
+		}
 		// late merge definitions
 		for _, m := range v.merges {
 			if m.newEpoch == st.epoch {
@@ -433,6 +450,10 @@ func (v *FnVC) mergeStates(parts []mergePart) *State {
 // heap keys
 func (v *FnVC) fieldKey(st types.Type, field *types.Var) string {
 	k := v.regKey("F:"+typeKey(st)+"."+field.Name(), fmt.Sprintf("(Array Int %s)", v.S.SortOf(field.Type())))
+	if v.keyTypes == nil {
+		v.keyTypes = map[string]types.Type{}
+	}
+	v.keyTypes[k] = field.Type()
 	if _, seen := v.initOnly[k]; !seen {
 		if v.initOnly == nil {
 			v.initOnly = map[string]bool{}
@@ -445,14 +466,20 @@ func (v *FnVC) fieldKey(st types.Type, field *types.Var) string {
 	return k
 }
 func (v *FnVC) cellKey(t types.Type) string {
-	return v.regKey("C:"+typeKey(t), fmt.Sprintf("(Array Int %s)", v.S.SortOf(t)))
+	k := v.regKey("C:"+typeKey(t), fmt.Sprintf("(Array Int %s)", v.S.SortOf(t)))
+	if v.keyTypes == nil {
+		v.keyTypes = map[string]types.Type{}
+	}
+	v.keyTypes[k] = t
+	return k
 }
 func (v *FnVC) elemKey(t types.Type) string {
 	return v.regKey("E:"+sanitize(v.S.SortOf(t)), fmt.Sprintf("(Array Int (Array Int %s))", v.S.SortOf(t)))
 }
 func (v *FnVC) mapKeys(m *types.Map) (dom, val, ln string) {
 	ks, vs := v.S.SortOf(m.Key()), v.S.SortOf(m.Elem())
-	id := sanitize(ks) + "_" + sanitize(vs)
+	// one heap per Go map type (key and element type), not per sort: maps of different types never alias
+	id := typeKey(m.Key()) + "_" + typeKey(m.Elem())
 	dom = v.regKey("MD:"+id, fmt.Sprintf("(Array Int (Array %s Bool))", ks))
 	val = v.regKey("MV:"+id, fmt.Sprintf("(Array Int (Array %s %s))", ks, vs))
 	ln = v.regKey("ML:"+id, "(Array Int Int)")
@@ -978,6 +1005,38 @@ func (v *FnVC) loopModKeys(li *LoopInfo) (keys map[string]bool, all bool) {
 	li.NonFresh = map[string]bool{}
 	li.OldRefs = map[string][]ssa.Value{}
 	li.ViewOnly = map[string]bool{}
+	li.OldRefTerms = map[string][]string{}
+	type pendingMap struct {
+		keys []string
+		fa   *ssa.FieldAddr
+	}
+	var pending []pendingMap
+	defer func() {
+		// maps updated in the loop that are loaded (inside the loop) from a field of a loop-invariant object: when the
+		// loop does not write that field, the map is the one the field held before the loop, and only it changes
+		for _, pm := range pending {
+			stable := keys != nil
+			for _, fk := range v.storeKeys(pm.fa) {
+				if keys == nil || keys[fk] {
+					stable = false
+				}
+			}
+			base, okb := v.vals[pm.fa.X]
+			if stable && okb && base.Sort == "Int" {
+				stT := deref(pm.fa.X.Type())
+				st, _ := structOf(stT)
+				fk := v.fieldKey(stT, st.Field(pm.fa.Field))
+				ref := fmt.Sprintf("(select %s %s)", v.heapGet(v.cur, fk), base.S)
+				for _, k := range pm.keys {
+					li.OldRefTerms[k] = append(li.OldRefTerms[k], ref)
+				}
+			} else {
+				for _, k := range pm.keys {
+					li.NonFresh[k] = true
+				}
+			}
+		}
+	}()
 	outside := func(x ssa.Value) bool {
 		switch y := x.(type) {
 		case *ssa.Parameter, *ssa.FreeVar, *ssa.Global, *ssa.Const:
@@ -1025,6 +1084,8 @@ func (v *FnVC) loopModKeys(li *LoopInfo) (keys map[string]bool, all bool) {
 						for _, k := range []string{d, vl, l} {
 							li.OldRefs[k] = append(li.OldRefs[k], mk)
 						}
+					} else if ld, isLd := i.Map.(*ssa.UnOp); isLd && ld.Op == token.MUL && fieldOfOutsidePtr(ld.X, outside) != nil {
+						pending = append(pending, pendingMap{[]string{d, vl, l}, fieldOfOutsidePtr(ld.X, outside)})
 					} else if !isMk {
 						li.NonFresh[d], li.NonFresh[vl], li.NonFresh[l] = true, true, true
 					}
@@ -1071,6 +1132,25 @@ func (v *FnVC) loopModKeys(li *LoopInfo) (keys map[string]bool, all bool) {
 		}
 	}
 	return keys, false
+}
+
+// fieldOfOutsidePtr: addr is &p.f for a pointer p defined outside the loop (parameter, captured variable, earlier value).
+func fieldOfOutsidePtr(addr ssa.Value, outside func(ssa.Value) bool) *ssa.FieldAddr {
+	fa, ok := addr.(*ssa.FieldAddr)
+	if !ok || !outside(fa.X) {
+		return nil
+	}
+	if _, isPtr := fa.X.Type().Underlying().(*types.Pointer); !isPtr {
+		return nil
+	}
+	switch fa.X.(type) {
+	case *ssa.FieldAddr, *ssa.IndexAddr:
+		return nil
+	}
+	if _, ok := structOf(deref(fa.X.Type())); !ok {
+		return nil
+	}
+	return fa
 }
 
 // interiorArgKeys handles a call without contract and without effect on tracked state whose pointer arguments are all
@@ -1517,6 +1597,12 @@ func (v *FnVC) loopHeader(b *ssa.BasicBlock, li *LoopInfo, entryPreds []*ssa.Bas
 					if rv.Sort == "Iface" {
 						rt = fmt.Sprintf("(ival %s)", rv.S)
 					}
+					if !seen[rt] {
+						seen[rt] = true
+						excl += fmt.Sprintf(" (not (= a %s))", rt)
+					}
+				}
+				for _, rt := range li.OldRefTerms[k] {
 					if !seen[rt] {
 						seen[rt] = true
 						excl += fmt.Sprintf(" (not (= a %s))", rt)
